@@ -33,10 +33,10 @@ RULE = ('A case is one (database, compression layout) translated by the real CLI
 ASSUMPTIONS = ['built-in rules (imp-is-pattern, prop-1/-2, mp) are stated over the variables whose $f order equals their role order, as in every shipped database; a small class with other orders is run and classified separately',
                'symbols are compared up to a bijection between Metamath constant names and binary symbol ids',
                'shipped benchmarks that use element/set variables, $d, #Substitution or obfuscated typecodes are outside the documented fragment: translated and counted, failures reported only']
-FLOORS = {'quick': {'databases': 300, 'translations': 900, 'translations_checked_by_rust_checker': 600, 'db_with:uses_nary_constructor': 50, 'db_with:uses_notation': 50,
+FLOORS = {'quick': {'databases': 200, 'translations': 600, 'translations_checked_by_rust_checker': 400, 'db_with:uses_nary_constructor': 50, 'db_with:uses_notation': 50,
                     'db_with:uses_rule_with_hyps': 50, 'db_with:uses_prop1': 50, 'db_with:uses_prop2': 50, 'db_with:uses_mp': 50,
-                    'proofs_with_Z_reuse': 100, 'targets_with_2plus_metavars': 30, 'shipped_benchmarks_translated': 5, 'claim_images_compared': 600,
-                    'axiom_images_compared': 600, 'layout_triples_compared': 200}}
+                    'proofs_with_Z_reuse': 100, 'targets_with_2plus_metavars': 30, 'shipped_benchmarks_translated': 5, 'claim_images_compared': 400,
+                    'axiom_images_compared': 400, 'layout_triples_compared': 200}}
 FLOORS['thorough'] = dict(FLOORS['quick'], databases=2500, translations=7500)
 
 REPO = Path(os.environ.get('PI2_REPO', '/repo'))
@@ -179,6 +179,12 @@ def judge(res, text, target, hx, want_images=True):
     return bad, info
 
 
+def seed_used(seed_note, mech, seed0):
+    if seed_note and mech != 'mandatory_hyp_order_hash_seed_dependent':
+        return int(list(seed_note)[1])
+    return seed0
+
+
 def shape_tags(features):
     return [f for f in ('builtin_roles_not_in_f_order',) if f in features]
 
@@ -258,26 +264,42 @@ def shard(ctx):
         mech, detail = bad[0]
         seed_note = None
         if nvars >= 2:
-            outcomes = {seed0: mech}
-            for s in (1, 2, 3, 5, 7):
-                r2 = run_translate(text, target, scratch, f'{name}_{lay}_s{s}', s)
-                b2, _ = judge(r2, text, target, hx)
-                outcomes[s] = b2[0][0] if b2 else 'all clauses hold'
-            ctx.count('hash_seed_reruns', 5)
-            if len(set(outcomes.values())) > 1:
-                seed_note = outcomes
-                mech = 'mandatory_hyp_order_hash_seed_dependent'
-                detail = f'outcome depends on PYTHONHASHSEED: {outcomes}; under seed {seed0}: {detail}'
-        if seed_note is None:
+            # Which table of mandatory hypotheses does the real converter build under this hash seed (C15's monitor)?
+            # If it is not the database order, look for a seed under which it is and translate again: if that run
+            # satisfies every clause the root cause is the hash-seed dependent order, otherwise it is something else.
+            sdb = mm.Database(text, verify=False, strict=False)
+            mand = sdb.mandatory_labels(sdb.labels[target])
+            case = [{'text': text, 'target': target}]
+            def table(seed):
+                r = c15.run_worker(case, seed, scratch, f'{name}_{lay}_tab')[0]
+                return [r.get('labels', {}).get(str(k + 1)) for k in range(len(mand))]
+            t0 = table(seed0)
+            if t0 != mand:
+                good = next((s for s in range(1, 200) if table(s) == mand), None)
+                ctx.count('hash_seed_reruns')
+                if good is not None:
+                    r2 = run_translate(text, target, scratch, f'{name}_{lay}_s{good}', good)
+                    b2, _ = judge(r2, text, target, hx)
+                    seed_note = {str(seed0): {'mandatory_table': t0, 'outcome': mech},
+                                 str(good): {'mandatory_table': mand, 'outcome': b2[0][0] if b2 else 'all clauses hold'}}
+                    if not b2:
+                        mech = 'mandatory_hyp_order_hash_seed_dependent'
+                        detail = (f'converter orders the mandatory hypotheses {t0} under PYTHONHASHSEED={seed0} (database order {mand}) and the '
+                                  f'translation fails: {detail}; under PYTHONHASHSEED={good} the order is right and every clause holds')
+                    else:
+                        res, bad = r2, b2
+                        mech, detail = b2[0]
+                        detail += f' (under PYTHONHASHSEED={good}, where the mandatory-hypothesis order is the database order)'
+        if mech != 'mandatory_hyp_order_hash_seed_dependent':
             tags = shape_tags(features)
             if tags:
                 mech += '|' + '+'.join(tags)
             if '_layout_dependent' in runs:
                 mech += '|layout_dependent'
-        w = {'database': text, 'target': target, 'layout': lay, 'hash_seed': seed0, 'features': features, 'kind': kind,
+        w = {'database': text, 'target': target, 'layout': lay, 'hash_seed': seed_used(seed_note, mech, seed0), 'features': features, 'kind': kind,
              'failed_clauses': [list(b) for b in bad], 'stderr_tail': res.get('stderr', '')[-1200:],
              'outcome_by_hash_seed': seed_note, 'outcome_by_layout': runs.get('_layout_dependent'),
-             'command': f'PYTHONHASHSEED={seed0} PYTHONPATH=$PI2_REPO/generation/src python -m proof_generation.metamath.translate db.mm out {target}'}
+             'command': f'PYTHONHASHSEED={seed_used(seed_note, mech, seed0)} PYTHONPATH=$PI2_REPO/generation/src python -m proof_generation.metamath.translate db.mm out {target}'}
         ctx.violation(mech, f'{kind} {name} target {target} ({nvars} metavariables, {rpn_len} proof steps, layout {lay}): {detail}', w)
         return False
 
@@ -285,6 +307,9 @@ def shard(ctx):
     bench = [f for f in sorted((REPO / 'generation' / 'mm-benchmarks').glob('*.mm')) if f.read_text().strip()]
     for i, f in enumerate(bench):
         if i % ctx.nshards != ctx.shard:
+            continue
+        if ctx.quick and f.name in HEAVY:
+            ctx.count('shipped_benchmarks_left_to_thorough_tier')
             continue
         text = f.read_text()
         db, err = mm.verify_text(text, strict=False)
@@ -335,7 +360,7 @@ def shard(ctx):
                     one_case(f'{f.stem}_re', lays, target, ['perturbed_benchmark'], len(dbt.mandatory_labels(a)), 'recompressed benchmark', len(mmdb.flatten(tree)))
 
     # ---- generated databases
-    total = ctx.scale(480, 3200)
+    total = ctx.scale(320, 3200)
     done = 0
     nsample = 0
     while done < total:
@@ -379,7 +404,7 @@ def replay(w):
         hx = None
     try:
         seeds = [wit.get('hash_seed', 0)]
-        if wit.get('outcome_by_hash_seed'):
+        if wit.get('outcome_by_hash_seed') and w['mechanism'] == 'mandatory_hyp_order_hash_seed_dependent':
             seeds = [int(s) for s in wit['outcome_by_hash_seed']]
         still = False
         outs = {}
@@ -392,7 +417,7 @@ def replay(w):
                 still = True
                 if res.get('stderr'):
                     print(res['stderr'][-600:])
-        if wit.get('outcome_by_hash_seed'):
+        if len(seeds) > 1:
             return len(set(outs.values())) > 1
         return still
     finally:
